@@ -42,11 +42,14 @@ type SimConfig struct {
 	SndBuf       int // SO_SNDBUF for the proxy side of client sockets (0 = default)
 }
 
-func NewSimEnv(cfg SimConfig) (*SimEnv, error) {
+func NewSimEnv(cfg SimConfig) (*SimEnv, error) { return NewSimEnvW(cfg, 0) }
+
+// NewSimEnvW: as NewSimEnv with an explicit outbound-buffer static cap (WriteBufferCap; 0 = the proxy's default)
+func NewSimEnvW(cfg SimConfig, writeBufferCap int) (*SimEnv, error) {
 	server.VerifResetAuthCmd()
 	h := server.NewListenServer(server.WithRedisPassword(cfg.Passwd), server.WithDisableRedisSlave(cfg.DisableSlave), server.WithServerRetryTimeout(1000))
 	h.OnBoot(core.Engine{})
-	env, err := core.VerifNewEnv(core.VerifOptions{MsgMaxLength: cfg.Limit, RequestTimeoutMs: cfg.TimeoutMs, ServerConnections: cfg.Conns, Passwd: cfg.Passwd}, h)
+	env, err := core.VerifNewEnv(core.VerifOptions{MsgMaxLength: cfg.Limit, RequestTimeoutMs: cfg.TimeoutMs, ServerConnections: cfg.Conns, Passwd: cfg.Passwd, WriteBufferCap: writeBufferCap}, h)
 	if err != nil {
 		return nil, err
 	}
